@@ -56,16 +56,20 @@ Theorem C20_device_roundtrip : forall d1 d2 d2',
 Proof. exact device_roundtrip. Qed.
 Print Assumptions C20_device_roundtrip.
 
-(* /devices (entries of disabled devices) *)
-Theorem C20_slaves_roundtrip : forall s1 s2 s2',
-  (forall e, In e (sl_devices s1) -> slave_json e = e) ->
-  put_slave_devices (get_slave_devices s1) s2 = (s2', None) ->
-  get_slave_devices s2' = get_slave_devices s1 /\ sl_updating s2' = true /\ sl_events s2' = true.
+(* /devices.  [reach] = what the devices on the network answer to GET /device while the restore runs (None = unreachable).  An
+   entry is restored as a live device when it is enabled, reachable and not asked to listen without the `listen` flag - with its
+   sync method kept as stated (detected only when unspecified: listen_enabled null and poll_interval 0) - otherwise as a disabled
+   device.  Premise: each entry of the backup is what that makes of it, apart from online / last_sync. *)
+Theorem C20_slaves_roundtrip : forall reach s1 s2 s2',
+  (forall e, In e (sl_devices s1) -> strip_slave (slave_result reach e) = strip_slave e) ->
+  put_slave_devices reach (get_slave_devices s1) s2 = (s2', None) ->
+  map strip_slave (get_slave_devices s2') = map strip_slave (get_slave_devices s1)
+  /\ sl_updating s2' = true /\ sl_events s2' = true.
 Proof. exact slaves_roundtrip. Qed.
 Print Assumptions C20_slaves_roundtrip.
 
-Theorem C20_slaves_flags_restored : forall doc s s' err,
-  put_slave_devices doc s = (s', err) -> sl_updating s' = true /\ sl_events s' = true.
+Theorem C20_slaves_flags_restored : forall reach doc s s' err,
+  put_slave_devices reach doc s = (s', err) -> sl_updating s' = true /\ sl_events s' = true.
 Proof. exact slaves_flags_restored. Qed.
 Print Assumptions C20_slaves_flags_restored.
 
@@ -114,11 +118,12 @@ Theorem C20_device_roundtrip_total : forall d1 d2,
 Proof. exact device_roundtrip_total. Qed.
 Print Assumptions C20_device_roundtrip_total.
 
-Theorem C20_slaves_roundtrip_total : forall s1 s2,
-  (forall e, In e (sl_devices s1) -> slave_json e = e) ->
-  forallb slave_entry_ok (sl_devices s1) = true -> endpoints_distinct (sl_devices s1) = true ->
-  exists s2', put_slave_devices (get_slave_devices s1) s2 = (s2', None)
-              /\ get_slave_devices s2' = get_slave_devices s1 /\ sl_updating s2' = true /\ sl_events s2' = true.
+Theorem C20_slaves_roundtrip_total : forall reach s1 s2,
+  (forall e, In e (sl_devices s1) -> strip_slave (slave_result reach e) = strip_slave e) ->
+  forallb (slave_entry_ok reach) (sl_devices s1) = true -> endpoints_distinct (sl_devices s1) = true ->
+  exists s2', put_slave_devices reach (get_slave_devices s1) s2 = (s2', None)
+              /\ map strip_slave (get_slave_devices s2') = map strip_slave (get_slave_devices s1)
+              /\ sl_updating s2' = true /\ sl_events s2' = true.
 Proof. exact slaves_roundtrip_total. Qed.
 Print Assumptions C20_slaves_roundtrip_total.
 
@@ -162,10 +167,22 @@ Example C20_nonvacuous_other :
    device_acceptable d1 d2 = true
    /\ option_map (fun d => dv_attrs d) (match put_device (get_device d1) d2 with (d, None) => Some d | _ => None end) = Some (dv_attrs d1)
    /\ lookup "admin_password" (get_device (fst (put_device (get_device d1) d2))) = Some (JStr ""))      (* kept: still unset *)
-  /\ (let s1 := {| sl_devices := [ex_slave "garage" "10.0.0.1" 120; ex_slave "s1" "10.0.0.2" 0]; sl_updating := true; sl_events := true |} in
-      forallb slave_entry_ok (sl_devices s1) = true /\ endpoints_distinct (sl_devices s1) = true
-      /\ forallb (fun e => entry_eqb (slave_json e) e) (sl_devices s1) = true
-      /\ snd (put_slave_devices (get_slave_devices s1) {| sl_devices := [ex_slave "old" "h" 0]; sl_updating := true; sl_events := true |}) = None)
+  /\ (let s1 := {| sl_devices := ex_slaves; sl_updating := true; sl_events := true |} in
+      (* a disabled device, and live devices in the three sync modes (listening / polled / neither: permanently offline), with and
+         without the `listen` flag: every entry is restored as it is, in particular "neither" stays "neither" *)
+      forallb (slave_entry_ok ex_reach) (sl_devices s1) = true /\ endpoints_distinct (sl_devices s1) = true
+      /\ forallb (fun e => entry_eqb (strip_slave (slave_result ex_reach e)) (strip_slave e)) (sl_devices s1) = true
+      /\ map (fun e => (Backup.get "enabled" e, Backup.get "poll_interval" e, Backup.get "listen_enabled" e))
+             (sl_devices (fst (put_slave_devices ex_reach (get_slave_devices s1)
+                                                 {| sl_devices := [ex_slave "old" "h" 0]; sl_updating := true; sl_events := true |})))
+         = [(JBool false, JNum 120, JBool false); (JBool true, JNum 0, JBool true); (JBool true, JNum 120, JBool false);
+            (JBool true, JNum 0, JBool false); (JBool true, JNum 0, JBool false)]
+      /\ snd (put_slave_devices ex_reach (get_slave_devices s1) {| sl_devices := []; sl_updating := true; sl_events := true |}) = None
+      (* unspecified (listen_enabled absent, poll_interval 0) is detected: listening with the flag, the default interval without *)
+      /\ map (fun e => (Backup.get "poll_interval" e, Backup.get "listen_enabled" e))
+             (sl_devices (fst (put_slave_devices ex_reach [remove_key "listen_enabled" (ex_live "relay" "relay.local" 0 JNull); remove_key "listen_enabled" (ex_live "plain" "plain.local" 0 JNull)]
+                                                 {| sl_devices := []; sl_updating := true; sl_events := true |})))
+         = [(JNum 0, JBool true); (JNum 40, JNull)])
   /\ (let known := String.eqb "mock.Driver" in
       let dyn := [ex_periph "pa"; ex_periph "pb"] in
       forallb (driver_known known) dyn = true /\ ids_distinct dyn = true
